@@ -5,17 +5,31 @@
 import re
 
 
+def innermost_op_matches(src):
+    """(start offset, body) of every `match op {` … first `_ =>` that contains no further `match op {`"""
+    res = []
+    for m in re.finditer(r"match\s+\*?op\s*\{", src):
+        end = re.search(r"\n\s*_\s*=>", src[m.end():])
+        if not end:
+            continue
+        body = src[m.end():m.end() + end.start()]
+        if re.search(r"match\s+\*?op\s*\{", body):
+            continue
+        res.append((m.start(), body))
+    return res
+
+
 def blocks(src):
     """yield (kind, [(BinaryOperator variant, predicate variant)]) for every operator match block"""
     out = []
     # a block starts at `match op {` (or `match *op {`) and runs to the first `_ =>` arm
-    for m in re.finditer(r"match\s+\*?op\s*\{(.*?)\n\s*_\s*=>", src, re.S):
-        body = m.group(1)
+    for m in innermost_op_matches(src):
+        body = m[1]
         pairs = re.findall(r"BinaryOperator::(\w+)\s*=>\s*(?:\w+::)*ColumnPredicate::(\w+)", body)
         if not pairs:
             continue
         # which destructuring precedes the block: (ColumnRef, Literal) = direct, (Literal, ColumnRef) = reversed
-        head = src[max(0, m.start() - 700):m.start()]
+        head = src[max(0, m[0] - 700):m[0]]
         d = head.rfind("Expression::ColumnRef { table, column }, Expression::Literal(")
         r = head.rfind("Expression::Literal(value), Expression::ColumnRef")
         if d < 0 and r < 0:
@@ -23,6 +37,26 @@ def blocks(src):
         else:
             kind = "direct" if d > r else "reversed"
         out.append((kind, pairs))
+    return out
+
+
+def range_tables(src):
+    """index_scan/predicate.rs: every `match op { BinaryOperator::X => RangePredicate { … } }` block:
+    (kind, [(op, start is Some, end is Some, inclusive_start, inclusive_end)]), kind by which operand
+    is tested with is_column_reference just before the block"""
+    out = []
+    for m in innermost_op_matches(src):
+        body = m[1]
+        rows = re.findall(
+            r"BinaryOperator::(\w+)\s*=>\s*RangePredicate\s*\{\s*start:\s*(Some|None)[^,]*,\s*end:\s*(Some|None)[^,]*,\s*inclusive_start:\s*(true|false),\s*inclusive_end:\s*(true|false)",
+            body)
+        if not rows:
+            continue
+        head = src[max(0, m[0] - 600):m[0]]
+        d = head.rfind("is_column_reference(left")
+        r = head.rfind("is_column_reference(right")
+        kind = "unknown" if d < 0 and r < 0 else ("direct" if d > r else "reversed")
+        out.append((kind, rows))
     return out
 
 
@@ -34,4 +68,11 @@ def extract(read):
     for kind, pairs in bl:
         rows.append('("%s", [%s])' % (kind, ", ".join('("%s", "%s")' % p for p in pairs)))
     out.append("def c06ColumnarOpTables : List (String × List (String × String)) := [%s]" % ", ".join(rows))
+    rsrc = read("crates/vibesql-executor/src/select/scan/index_scan/predicate.rs")
+    rt = range_tables(rsrc)
+    out.append("/-- select/scan/index_scan/predicate.rs: every operator → RangePredicate table, as written:\n(kind, [(BinaryOperator, start is Some, end is Some, inclusive_start, inclusive_end)]) -/")
+    rrows = []
+    for kind, rows in rt:
+        rrows.append('("%s", [%s])' % (kind, ", ".join('("%s", %s, %s, %s, %s)' % (o, "true" if a == "Some" else "false", "true" if b == "Some" else "false", c, d) for o, a, b, c, d in rows)))
+    out.append("def c06IndexRangeTables : List (String × List (String × Bool × Bool × Bool × Bool)) := [%s]" % ", ".join(rrows))
     return "\n".join(out) + "\n"
